@@ -6,7 +6,7 @@ fails only by running out of model fuel or, for `load_theory`, because the limit
 -/
 namespace Holpy.C12
 
-variable (W : World) (L : Lib)
+variable (W : World) (L : Lib) (U : Used)
 
 structure Healthy : Prop where
   noRaise : ∀ i ctx, W.parse i ctx ≠ .raise
@@ -23,7 +23,7 @@ def Post2 : Call → R → Prop
   | .imp _, r => OkOrFuel r.1
   | .load n lim, r => n ∈ L.names → OkOrFuel r.1 ∨ (r.1 = some .limit ∧ ∃ i, lim = .item i)
 
-def RecOk2 (rec : Call → State → R) : Prop := ∀ c s, Inv W L s → Post2 L c (rec c s)
+def RecOk2 (rec : Call → State → R) : Prop := ∀ c s, Inv W L U s → Post2 L c (rec c s)
 
 theorem parseAll_noRaise (P : Item → List Item → PRes) (hP : ∀ i ctx, P i ctx ≠ .raise) :
     ∀ (items ctx : List Item), (parseAll P ctx items).isSome := by
@@ -64,10 +64,10 @@ theorem extendList_ok (hH : Healthy W L) : ∀ (items acc : List Item), (extendL
     simp only [hH.noClash i acc, if_true]
     exact ih _
 
-theorem entry_of_mem {s : State} (hi : Inv W L s) (hc : s.cache.isSome) {n : Name} (hn : n ∈ L.names) :
+theorem entry_of_mem {s : State} (hi : Inv W L U s) (hc : s.cache.isSome) {n : Name} (hn : n ∈ L.names) :
     ∃ e, s.entry n = some e ∧ e.imports = L.imports n := by
   obtain ⟨T, hT⟩ := Option.isSome_iff_exists.mp hc
-  have h := (hi.2 T hT).2.1 n
+  have h := (hi.2.1 T hT).2.1 n
   unfold Lib.imps at h
   simp only [hn, if_true] at h
   cases hTn : T n with
@@ -77,9 +77,9 @@ theorem entry_of_mem {s : State} (hi : Inv W L s) (hc : s.cache.isSome) {n : Nam
     simp only [Option.map_some, Option.some.injEq] at h
     exact ⟨e, by unfold State.entry; rw [hT]; exact hTn, h⟩
 
-theorem loopDeps_ok (hH : Healthy W L) {rec : Name → State → R} (hrec : ∀ p s, Inv W L s → LtcPost W L p s (rec p s))
-    (hrec2 : ∀ p s, Inv W L s → p ∈ L.names → OkOrFuel (rec p s).1) :
-    ∀ (order : List Name) (s : State) (acc : List (Name × Nat)), Inv W L s → (∀ p ∈ order, p ∈ L.names) →
+theorem loopDeps_ok (hH : Healthy W L) {rec : Name → State → R} (hrec : ∀ p s, Inv W L U s → LtcPost W L U p s (rec p s))
+    (hrec2 : ∀ p s, Inv W L U s → p ∈ L.names → OkOrFuel (rec p s).1) :
+    ∀ (order : List Name) (s : State) (acc : List (Name × Nat)), Inv W L U s → (∀ p ∈ order, p ∈ L.names) →
       OkOrFuel (loopDeps W rec order s acc).1 := by
   intro order
   induction order with
@@ -101,15 +101,15 @@ theorem loopDeps_ok (hH : Healthy W L) {rec : Name → State → R} (hrec : ∀ 
       simp only [he, extendList_ok W L hH, if_true]
       exact ih _ _ (hrel.inv.of_sameCore (sameCore_setThy _ _)) (fun q hq => hmem q (List.mem_cons_of_mem _ hq))
 
-theorem ltcBody_ok (hH : Healthy W L) {rec : Call → State → R} (hrec : RecOk W L none rec) (hrec2 : RecOk2 W L rec)
-    (n : Name) (hn : n ∈ L.names) {s : State} (hi : Inv W L s) : OkOrFuel (ltcBody W none rec n s).1 := by
+theorem ltcBody_ok (hH : Healthy W L) {rec : Call → State → R} (hrec : RecOk W L U none rec) (hrec2 : RecOk2 W L U rec)
+    (n : Name) (hn : n ∈ L.names) {s : State} (hi : Inv W L U s) : OkOrFuel (ltcBody W none rec n s).1 := by
   unfold ltcBody
-  obtain ⟨hm1, _, _, hm4⟩ := ensureMeta_post W L hi
+  obtain ⟨hm1, _, _, hm4⟩ := ensureMeta_post W L U hi
   have hmeta : (ensureMeta s).1 = none := by
     unfold ensureMeta
     by_cases hc : s.cache.isNone = true
     · rw [if_pos hc]
-      have h7 := (loadMetadata_inv W L hi.1).2.2.2.2.2.2
+      have h7 := (loadMetadata_inv W L U hi.1 hi.2.2).2.2.2.2.2.2
       cases hl : (loadMetadata s).1 with
       | none => rfl
       | some e =>
@@ -122,13 +122,13 @@ theorem ltcBody_ok (hH : Healthy W L) {rec : Call → State → R} (hrec : RecOk
   subst hmeta
   simp only []
   have hc1 : s1.cache.isSome := hm4 rfl
-  obtain ⟨e, he, himp⟩ := entry_of_mem W L hm1.inv hc1 hn
+  obtain ⟨e, he, himp⟩ := entry_of_mem W L U hm1.inv hc1 hn
   simp only [he]
   by_cases hv : e.valid s1 n = true
   · rw [if_pos hv]; exact Or.inl rfl
   · rw [if_neg hv]
     unfold ltcMiss
-    obtain ⟨hl1, _, _⟩ := lazyStep_post W L hrec n hm1.inv
+    obtain ⟨hl1, _, _⟩ := lazyStep_post W L U hrec n hm1.inv
     have hlz : OkOrFuel (lazyStep W rec n s1).1 := by
       unfold lazyStep
       cases W.lazyOf n with
@@ -143,12 +143,12 @@ theorem ltcBody_ok (hH : Healthy W L) {rec : Call → State → R} (hrec : RecOk
       simp only []
       have hc2 : s2.cache.isSome := hl1.loaded hc1
       obtain ⟨T2, hT2⟩ := Option.isSome_iff_exists.mp hc2
-      rw [order_eq W L hl1.inv hT2, himp]
+      rw [order_eq W L U hl1.inv hT2, himp]
       obtain ⟨ord, hord, hmem⟩ := hH.orders n hn
       rw [hord]
       simp only []
-      have hipush : Inv W L s2.push := hl1.inv.of_sameCore (sameCore_push s2)
-      have hlo := loopDeps_ok W L hH (rec := fun p s => rec (.ltc p) s) (fun p s hs => hrec (.ltc p) s hs)
+      have hipush : Inv W L U s2.push := hl1.inv.of_sameCore (sameCore_push s2)
+      have hlo := loopDeps_ok W L U hH (rec := fun p s => rec (.ltc p) s) (fun p s hs => hrec (.ltc p) s hs)
         (fun p s hs hp => hrec2 (.ltc p) s hs hp) ord s2.push [] hipush hmem
       rcases hlp : loopDeps W (fun p s => rec (.ltc p) s) ord s2.push [] with ⟨r3, s3, deps⟩
       rw [hlp] at hlo
@@ -164,8 +164,8 @@ theorem ltcBody_ok (hH : Healthy W L) {rec : Call → State → R} (hrec : RecOk
         rw [hc]
         exact Or.inl rfl
 
-theorem runActs_ok (hH : Healthy W L) {rec : Call → State → R} (hrec : RecOk W L none rec) (hrec2 : RecOk2 W L rec) (m : Mod) :
-    ∀ (acts : List Act) (s : State), (∀ a ∈ acts, a ∈ W.body m) → Inv W L s → OkOrFuel (runActs rec acts s).1 := by
+theorem runActs_ok (hH : Healthy W L) {rec : Call → State → R} (hrec : RecOk W L U none rec) (hrec2 : RecOk2 W L U rec) (m : Mod) :
+    ∀ (acts : List Act) (s : State), (∀ a ∈ acts, a ∈ W.body m) → Inv W L U s → OkOrFuel (runActs rec acts s).1 := by
   intro acts
   induction acts with
   | nil => intro s _ _; exact Or.inl rfl
@@ -195,8 +195,8 @@ theorem runActs_ok (hH : Healthy W L) {rec : Call → State → R} (hrec : RecOk
         · cases hi'
       | none => exact ih s1 (fun a ha => hsub a (List.mem_cons_of_mem _ ha)) h1.1.inv
 
-theorem impBody_ok (hH : Healthy W L) {rec : Call → State → R} (hrec : RecOk W L none rec) (hrec2 : RecOk2 W L rec)
-    (m : Mod) {s : State} (hi : Inv W L s) : OkOrFuel (impBody W rec m s).1 := by
+theorem impBody_ok (hH : Healthy W L) {rec : Call → State → R} (hrec : RecOk W L U none rec) (hrec2 : RecOk2 W L U rec)
+    (m : Mod) {s : State} (hi : Inv W L U s) : OkOrFuel (impBody W rec m s).1 := by
   unfold impBody
   by_cases him : s.imported m = true
   · rw [if_pos him]; exact Or.inl rfl
@@ -204,7 +204,7 @@ theorem impBody_ok (hH : Healthy W L) {rec : Call → State → R} (hrec : RecOk
     simp only []
     have hsc : SameCore s (State.logEv { s with imported := fun k => if k = m then true else s.imported k } (.execMod m)) :=
       ⟨rfl, rfl, rfl⟩
-    have h := runActs_ok W L hH hrec hrec2 m (W.body m) _ (fun a ha => ha) (hi.of_sameCore hsc)
+    have h := runActs_ok W L U hH hrec hrec2 m (W.body m) _ (fun a ha => ha) (hi.of_sameCore hsc)
     rcases hr : runActs rec (W.body m)
         (State.logEv { s with imported := fun k => if k = m then true else s.imported k } (.execMod m)) with ⟨r1, s1⟩
     rw [hr] at h
@@ -212,8 +212,8 @@ theorem impBody_ok (hH : Healthy W L) {rec : Call → State → R} (hrec : RecOk
     | some e => exact h
     | none => exact Or.inl rfl
 
-theorem loadBody_ok (hH : Healthy W L) {rec : Call → State → R} (hrec : RecOk W L none rec) (hrec2 : RecOk2 W L rec)
-    (n : Name) (lim : Limit) (hn : n ∈ L.names) {s : State} (hi : Inv W L s) :
+theorem loadBody_ok (hH : Healthy W L) {rec : Call → State → R} (hrec : RecOk W L U none rec) (hrec2 : RecOk2 W L U rec)
+    (n : Name) (lim : Limit) (hn : n ∈ L.names) {s : State} (hi : Inv W L U s) :
     OkOrFuel (loadBody W rec n lim s).1 ∨ ((loadBody W rec n lim s).1 = some .limit ∧ ∃ i, lim = .item i) := by
   unfold loadBody
   have h1 := hrec (.ltc n) s hi
@@ -229,18 +229,18 @@ theorem loadBody_ok (hH : Healthy W L) {rec : Call → State → R} (hrec : RecO
     obtain ⟨e, he, hs⟩ := hent rfl
     obtain ⟨T, hT, _⟩ := cache_of_entry he
     have hc1 : s1.cache.isSome := by rw [hT]; rfl
-    obtain ⟨e0, he0, himp⟩ := entry_of_mem W L hrel.inv hc1 hn
+    obtain ⟨e0, he0, himp⟩ := entry_of_mem W L U hrel.inv hc1 hn
     rw [he] at he0
     cases he0
     simp only [he]
-    rw [order_eq W L hrel.inv hT, himp]
+    rw [order_eq W L U hrel.inv hT, himp]
     obtain ⟨ord, hord, hmem⟩ := hH.orders n hn
     rw [hord]
     simp only []
     have hsc : SameCore s1 { s1 with thy := some [] } := ⟨rfl, rfl, rfl⟩
-    have hlo := loopDeps_ok W L hH (rec := fun p s => rec (.ltc p) s) (fun p s hs => hrec (.ltc p) s hs)
+    have hlo := loopDeps_ok W L U hH (rec := fun p s => rec (.ltc p) s) (fun p s hs => hrec (.ltc p) s hs)
       (fun p s hs hp => hrec2 (.ltc p) s hs hp) ord { s1 with thy := some [] } [] (hrel.inv.of_sameCore hsc) hmem
-    have hloop := loopDeps_post W L (fun p s => rec (.ltc p) s) (fun p s hs => hrec (.ltc p) s hs) ord
+    have hloop := loopDeps_post W L U (fun p s => rec (.ltc p) s) (fun p s hs => hrec (.ltc p) s hs) ord
       { s1 with thy := some [] } [] (hrel.inv.of_sameCore hsc)
     rcases hlp : loopDeps W (fun p s => rec (.ltc p) s) ord { s1 with thy := some [] } [] with ⟨r2, s2, deps⟩
     rw [hlp] at hlo hloop
@@ -266,8 +266,8 @@ theorem loadBody_ok (hH : Healthy W L) {rec : Call → State → R} (hrec : RecO
         · simp only [hbl, extendList_ok W L hH, if_true]; exact Or.inr ⟨rfl, i, rfl⟩
 
 /-- when `load_theory` reports a missing limit, the specification says the same -/
-theorem loadBody_limit (hH : Healthy W L) {rec : Call → State → R} (hrec : RecOk W L none rec) (hrec2 : RecOk2 W L rec)
-    (n : Name) (lim : Limit) (hn : n ∈ L.names) {s : State} (hi : Inv W L s)
+theorem loadBody_limit (hH : Healthy W L) {rec : Call → State → R} (hrec : RecOk W L U none rec) (hrec2 : RecOk2 W L U rec)
+    (n : Name) (lim : Limit) (hn : n ∈ L.names) {s : State} (hi : Inv W L U s)
     (hlim : (loadBody W rec n lim s).1 = some .limit) :
     ∀ k, specLoad W L k n lim ≠ .error .fuel → specLoad W L k n lim = .error .limit := by
   revert hlim
@@ -288,22 +288,22 @@ theorem loadBody_limit (hH : Healthy W L) {rec : Call → State → R} (hrec : R
     obtain ⟨e, he, hs⟩ := hent rfl
     obtain ⟨T, hT, _⟩ := cache_of_entry he
     have hc1 : s1.cache.isSome := by rw [hT]; rfl
-    obtain ⟨e0, he0, himp⟩ := entry_of_mem W L hrel.inv hc1 hn
+    obtain ⟨e0, he0, himp⟩ := entry_of_mem W L U hrel.inv hc1 hn
     rw [he] at he0
     cases he0
     simp only [he]
-    rw [order_eq W L hrel.inv hT, himp]
+    rw [order_eq W L U hrel.inv hT, himp]
     obtain ⟨ord, hord, hmem⟩ := hH.orders n hn
     rw [hord]
     simp only []
     have hsc : SameCore s1 { s1 with thy := some [] } := ⟨rfl, rfl, rfl⟩
-    have hlo := loopDeps_ok W L hH (rec := fun p s => rec (.ltc p) s) (fun p s hs => hrec (.ltc p) s hs)
+    have hlo := loopDeps_ok W L U hH (rec := fun p s => rec (.ltc p) s) (fun p s hs => hrec (.ltc p) s hs)
       (fun p s hs hp => hrec2 (.ltc p) s hs hp) ord { s1 with thy := some [] } [] (hrel.inv.of_sameCore hsc) hmem
-    have hloop := loopDeps_post W L (fun p s => rec (.ltc p) s) (fun p s hs => hrec (.ltc p) s hs) ord
+    have hloop := loopDeps_post W L U (fun p s => rec (.ltc p) s) (fun p s hs => hrec (.ltc p) s hs) ord
       { s1 with thy := some [] } [] (hrel.inv.of_sameCore hsc)
     rcases hlp : loopDeps W (fun p s => rec (.ltc p) s) ord { s1 with thy := some [] } [] with ⟨r2, s2, deps⟩
     rw [hlp] at hlo hloop
-    obtain ⟨hr2, _, hctx⟩ := hloop
+    obtain ⟨hr2, _, hctx, _⟩ := hloop
     simp only [] at hr2 hctx
     cases r2 with
     | some e' =>
@@ -316,7 +316,7 @@ theorem loadBody_limit (hH : Healthy W L) {rec : Call → State → R} (hrec : R
       have hctx' : ∀ k, ctxOf W (specContent W L k) ord [] ≠ .error .fuel →
           ctxOf W (specContent W L k) ord [] = .ok (s2.thy.getD []) := hctx rfl
       have hspec := specLoad_eq W L n lim ord e2.content (s2.thy.getD []) hH.topo hord
-        (cache_spec W L hr2.inv he2 hs2) hctx'
+        (cache_spec W L U hr2.inv he2 hs2) hctx'
       unfold loadFinish
       cases lim with
       | start => intro hlim; simp at hlim
@@ -335,7 +335,7 @@ theorem loadBody_limit (hH : Healthy W L) {rec : Call → State → R} (hrec : R
           simp only [hbl, extendList_ok W L hH, if_true]
           rfl
 
-theorem exec_ok (hH : Healthy W L) : ∀ f, RecOk2 W L (exec W none f) := by
+theorem exec_ok (hH : Healthy W L) : ∀ f, RecOk2 W L U (exec W none f) := by
   intro f
   induction f with
   | zero =>
@@ -347,8 +347,8 @@ theorem exec_ok (hH : Healthy W L) : ∀ f, RecOk2 W L (exec W none f) := by
   | succ f ih =>
     intro c s hi
     cases c with
-    | ltc n => exact fun hn => ltcBody_ok W L hH (exec_post W L none f) ih n hn hi
-    | imp m => exact impBody_ok W L hH (exec_post W L none f) ih m hi
-    | load n lim => exact fun hn => loadBody_ok W L hH (exec_post W L none f) ih n lim hn hi
+    | ltc n => exact fun hn => ltcBody_ok W L U hH (exec_post W L U none f) ih n hn hi
+    | imp m => exact impBody_ok W L U hH (exec_post W L U none f) ih m hi
+    | load n lim => exact fun hn => loadBody_ok W L U hH (exec_post W L U none f) ih n lim hn hi
 
 end Holpy.C12
